@@ -543,7 +543,7 @@ func (p *Pool) RunConcrete(prog *Program, cfg RunConfig, input Model) (labels []
 	in := p.workers[0]
 	h := prog.Harnesses[cfg.Harness]
 	ps := &pathState{
-		maxSteps: 4000000, maxDecs: 100000, maxConc: 64,
+		maxSteps: 400000000, maxDecs: 100000, maxConc: 64,
 		covers: map[string]Model{}, asserts: map[string]int{}, varCtr: map[string]int{}, ghost: map[string]value{},
 		known: cfg.Known, knownSeen: map[string]bool{}, cuts: map[string]int{}, pcVars: map[*term.Term]bool{}, stubCalls: map[string]int{},
 		concrete: true, input: input, harness: h,
